@@ -104,7 +104,7 @@ def c20b(tree, ob):
     head = _size(tree, 'MessageHead')
     fits = None
     for (t, p) in atoms:
-        got = pm('total_len < $b', ast.parse(t, mode='eval').body) if p else None
+        got = pm('total_len < $b', ast.parse(t, mode='eval').body) if p else pm('total_len > $b', ast.parse(t, mode='eval').body)
         if got is not None:
             form = linear(got['b'], ())
             fits = form
@@ -114,6 +114,13 @@ def c20b(tree, ob):
         ob.violate(BAGENT, QS, 'if ' + src(cond.test), 'the fit test reserves {} octets but the message header is {} octets'.format(-fits.get(1, 0), int(head)), cond)
     else:
         ob.site(BAGENT, cond, 'single PDU iff no MTU or data < mtu - {}'.format(int(head)))
+    # the message length field has 20 bits: a bundle PDU of 2**20 octets or more cannot be declared truthfully
+    lim = [r for r in walk_local(fv.func) if isinstance(r, ast.Raise) and any(__import__('re').match(r'^total_len >=? (\d+|0x[0-9a-fA-F]+)$', t) for (t, p) in (fv.facts(r) or ()) if p is True)]
+    if lim and fv.cfg.must_pass(fv.cfg.entry, fv.node(s), {fv.node(enclosing(lim[0], (ast.If,)))})[0]:
+        ob.site(BAGENT, lim[0], 'a bundle too large for the 20-bit length field is refused')
+    else:
+        ob.violate(BAGENT, QS, src(s) + ' without a size limit', 'without an MTU a bundle of 2**20 octets or more is put into one message whose 20-bit length field silently wraps: the frame decodes to '
+                   'different messages', s)
     tl = fv.value_at(ast.parse('total_len', mode='eval').body, s, keep=('data',))
     if src(tl) != 'len(data)' or pm('BundlePdu(data)', s) is None:
         ob.violate(BAGENT, QS, src(s), 'the PDU does not carry the whole bundle data', s)
@@ -182,7 +189,33 @@ def c20c(tree, ob):
         ob.violate(BAGENT, QS, 'seg_data = ' + src(sd), 'the piece sent is not the piece cut', sg)
 
 
+def c20_timer(tree, ob):
+    ''' One reassembly timeout per transfer: stored on the transfer, the previous one removed when a new segment arrives,
+    and the cancel callback tolerant of a transfer that is already gone. '''
+    fv = FuncView(tree, BAGENT, QR)
+    adds = [c for c in calls_in(fv.func) if (call_name(c) or '').endswith('timeout_add') and any('_rx_progress_cancel' in src(a) for a in c.args)]
+    ob.require(adds, 'reassembly timeout not found')
+    for c in adds:
+        par = getattr(c, '_parent', None)
+        stored = isinstance(par, ast.Assign) and any(src(t) == 'xfer.timeout_id' for t in par.targets)
+        removes = [r for r in calls_in(fv.func) if (call_name(r) or '').endswith('source_remove') and src(r.args[0]) == 'xfer.timeout_id'] if stored else []
+        if stored and removes and all(fv.dominates(r, c)[0] or fv.node(r) in fv.cfg.reachable([fv.cfg.entry]) for r in removes) and \
+                fv.cfg.must_pass(fv.cfg.entry, fv.node(c), {n for n in fv.cfg.nodes if n.kind == 'cond' and 'xfer.timeout_id' in src(n.ast)})[0]:
+            ob.site(BAGENT, c, 'one timeout per transfer, restarted by each new segment')
+        else:
+            ob.violate(BAGENT, QR, src(c)[:70], 'every segment adds another timeout and none is cancelled: the timer of the first segment deletes a transfer that is still receiving, the stale '
+                       'ones delete the partial transfers that follow, and after completion each leftover raises KeyError', c)
+    fc = FuncView(tree, BAGENT, 'Agent._rx_progress_cancel')
+    hard = [d for d in walk_local(fc.func) if isinstance(d, ast.Delete) and any('_rx_progres' in src(t) for t in d.targets)] + \
+           [c for c in calls_in(fc.func) if pm('self._rx_progres.pop(key)', c) is not None]
+    if hard:
+        ob.violate(BAGENT, fc.qual, src(hard[0]), 'cancelling a transfer that is already gone raises KeyError out of the timer callback', hard[0])
+    else:
+        ob.site(BAGENT, fc.func, 'cancel tolerates a transfer that is already gone')
+
+
 def c20d(tree, ob):
+    c20_timer(tree, ob)
     fv = FuncView(tree, BAGENT, QR)
     adds = [c for c in method_calls(fv.func, '_add_rx_item', 'self') if fv.has(c, 'isinstance(msg.payload, (TransferSeg, TransferEnd))', True)]
     a = one(adds, '_add_rx_item in the segment branch', ob)
@@ -202,7 +235,10 @@ def c20d(tree, ob):
     else:
         ob.site(BAGENT, c, 'got_idx |= {seg_idx}')
     st = [n for n in walk_local(fv.func) if isinstance(n, ast.Assign) and pm('xfer.data[msg.payload.seg_idx]', n.targets[0]) is not None]
-    if len(st) != 1 or src(st[0].value) != 'msg.payload.payload.load':
+    if len(st) == 1 and src(st[0].value) == 'msg.payload.payload.load':
+        ob.violate(BAGENT, QR, src(st[0]), 'the data of a segment is read through its payload layer, which a segment with an empty data field does not have: AttributeError in the frame handler, '
+                   'the rest of the frame is lost and the io callback dies', st[0])
+    elif len(st) != 1 or src(st[0].value) != 'bytes(msg.payload.payload)':
         ob.violate(BAGENT, QR, 'xfer.data[seg_idx] = ...', 'segment data is not stored under its index', fv.func)
     if not fv.has(c, 'msg.payload.seg_idx in xfer.got_idx', False) or (st and not fv.dominates(c, st[0])[0]):
         ob.violate(BAGENT, QR, src(c)[:60], 'a repeated segment index is processed again', c)
